@@ -74,6 +74,9 @@ package connectconformance
 //@   //# a case is only handed to the client while the server process is still alive - also the last one of the batch
 //@   snapshot_at "binop:if procCtx.Err() != nil": serverGone = operand(0) != nil
 //@   assert_at "req := proto.Clone(testCase.Request)": !serverGone
+//@   //# cases that are given up without having been sent (server gone, client refuses the send) are recorded as
+//@   //# setup errors, never as verdicts: operand(3) is the setupError argument of both marking calls
+//@   assert_at "call:results.setOutcome(testCases[j].Request.TestName"#*: operand(3)
 //@   loop 0: invariant testCaseNameSet != nil && fresh(testCaseNameSet)
 //@   loop 1: invariant forall k int :: 0 <= k && k <= rangeindex ==> sendOK[testCases[k].Request.TestName]
 //@   loop 2: invariant i <= j && j <= len(testCases)
